@@ -4,7 +4,7 @@ CONSTANTS Widths = {} MaxH = 1 MaxOwn = 1 LimbDom = {0} IdWidths = {} StreamWidt
   Transports = {"stream", "dgram"} ConnWidths = {1, 2} IdCand = {} IdLimit = 0
   MaxReq = 2 MaxPlain = 1 MaxStray = 1
   BActs = {"none", "reply", "reply2"} BHrets <- CHretsBoth SyncMax = 0
-  MaxBReq = 1 MaxBPlain = 1 CRets <- CRetsBoth MaxChain = 1
+  MaxBReq = 0 MaxBPlain = 0 CRets <- CRetsZero MaxChain = 0
 VIEW Skel
 ACTION_CONSTRAINT Emit
 CHECK_DEADLOCK FALSE
